@@ -1,0 +1,22 @@
+//go:build verif
+
+// Package verifhook marks instants inside multi-step operations (directory swap, store writes, accept/swap
+// of a CRL). With the build tag verif an external verification harness can register a callback which is
+// invoked at every such instant (to snapshot the work directory, end the process, or yield).
+package verifhook
+
+import "sync/atomic"
+
+type callback struct{ f func(name string) }
+
+var current atomic.Value // holds callback
+
+// SetCallback registers f (nil removes the callback). Safe for concurrent use with Hit.
+func SetCallback(f func(name string)) { current.Store(callback{f}) }
+
+// Hit marks the instant called name and invokes the registered callback, if any.
+func Hit(name string) {
+	if cb, ok := current.Load().(callback); ok && cb.f != nil {
+		cb.f(name)
+	}
+}
